@@ -93,6 +93,7 @@ def gen_function(world, contracts, externals, key):
                 rsv.append(sv)
                 if r['name'] and r['name'] != '_':
                     renv[r['name']] = sv
+        apply_ghostsets(V, c, pkg, renv, hp, H0, rsv, rr)
         ev1 = SpecEval(V, pkg, renv, hp, old=H0, results=rsv)
         try:
             # postconditions are proved in the order written; each one, once stated as an obligation, may be used
@@ -106,8 +107,62 @@ def gen_function(world, contracts, externals, key):
                 frame_obligations(V, X, c, ev0, H0, hp, rr, pkg)
         except SpecError as e:
             raise OutOfSubset('contract of %s: %s' % (key, e))
+    if c is not None and c.get('returns'):
+        for (lab, ast, txt) in c['returns']:
+            if getattr(V, 'return_clause_sites', {}).get(lab, 0) == 0:
+                raise OutOfSubset('return clause [%s] of %s applies to no return statement (a variable it names no longer exists)' % (lab, key))
     V.global_hyps += world.string_axioms()
     return V
+
+
+def ghost_key(world, name, binders, pkg):
+    from .speceval import resolve_type
+    if not binders:
+        return ('ghost', name, I)
+    so = I
+    space = None
+    for (bn, bt) in reversed(binders):
+        ty = resolve_type(world, bt, pkg)
+        so = z3.ArraySort(world.sort(ty), so)
+    sp = world.prog.struct_of_ptr(resolve_type(world, binders[0][1], pkg))
+    if sp is not None:
+        return ('ghost', name, so, sp[0])
+    return ('ghost', name, so)
+
+
+def apply_ghostsets(V, c, pkg, env, heap, oldheap, results, reach, hyp=None):
+    """ghost assignments performed when the function returns: the ghost component of `heap` is replaced by a value
+    defined (pointwise) by the given expression over the final state and old()"""
+    from .speceval import resolve_type
+    world = V.world
+    add = hyp or V.add_hyp
+    for (name, binders, ast, txt) in c.get('ghostsets', []):
+        key = ghost_key(world, name, binders, pkg)
+        ev = SpecEval(V, pkg, env, heap, old=oldheap, results=results)
+        if not binders:
+            val = ev.ev(ast).t
+            nv = V.fresh_heap_const(key, 'gs')
+            add(z3.Implies(reach, nv == val))
+            heap.set(key, nv)
+            continue
+        env2 = dict(env)
+        vs = []
+        bnd = {}
+        for (bn, bt) in binders:
+            ty = resolve_type(world, bt, pkg)
+            cst = z3.Const('gs_' + bn, world.sort(ty))
+            vs.append(cst)
+            env2[bn] = SV(cst, ty)
+            bnd[bn] = env2[bn]
+        ev2 = SpecEval(V, pkg, env2, heap, old=oldheap, results=results)
+        ev2.bound = bnd
+        val = ev2.ev(ast).t
+        nv = V.fresh_heap_const(key, 'gs')
+        sel = nv
+        for cst in vs:
+            sel = sel[cst]
+        add(z3.Implies(reach, z3.ForAll(vs, sel == val, patterns=[sel])))
+        heap.set(key, nv)
 
 
 def pkg_of_file(f, default):
